@@ -46,6 +46,27 @@ from paramiko.sftp import (
 from paramiko.sftp_attr import SFTPAttributes
 
 
+class _PipelinedWrites:
+    """
+    What the pipelined write requests of one file are registered under: a
+    write status that is read while some other request waits for its answer
+    ends up here instead of being dropped.
+    """
+
+    def __init__(self, fileobj):
+        self.fileobj = fileobj
+        self.error = None
+
+    def _async_response(self, t, msg, num):
+        try:
+            if t != CMD_STATUS:
+                raise SFTPError("Expected status")
+            self.fileobj.sftp._convert_status(msg)
+        except Exception as e:
+            if self.error is None:
+                self.error = e
+
+
 class SFTPFile(BufferedFile):
     """
     Proxy object for a file on the remote server, in client mode SFTP.
@@ -71,6 +92,7 @@ class SFTPFile(BufferedFile):
         self._prefetch_lock = threading.Lock()
         self._saved_exception = None
         self._reqs = deque()
+        self._writes = _PipelinedWrites(self)
 
     def __del__(self):
         self._close(async_=True)
@@ -101,11 +123,15 @@ class SFTPFile(BufferedFile):
             # a write the server rejected must not go unnoticed
             while len(self._reqs):
                 req = self._reqs.popleft()
+                if req not in self.sftp._expecting:
+                    # already read while another request on this connection
+                    # was waiting for its answer
+                    continue
                 try:
                     t, msg = self.sftp._read_response(req)
                     if t != CMD_STATUS:
                         raise SFTPError("Expected status")
-                except (IOError, SFTPError) as e:
+                except (IOError, EOFError, SFTPError) as e:
                     if write_error is None:
                         write_error = e
         try:
@@ -121,6 +147,8 @@ class SFTPFile(BufferedFile):
         except (IOError, socket.error):
             # may have outlived the Transport connection
             pass
+        if write_error is None:
+            write_error = self._writes.error
         if write_error is not None:
             raise write_error
 
@@ -208,7 +236,7 @@ class SFTPFile(BufferedFile):
         # may write less than requested if it would exceed max packet size
         chunk = min(len(data), self.MAX_REQUEST_SIZE)
         sftp_async_request = self.sftp._async_request(
-            type(None),
+            self._writes,
             CMD_WRITE,
             self.handle,
             int64(self._realpos),
